@@ -113,7 +113,11 @@ def run(tier, replay=None):
             # hand-written snippets around the constructs the analysis treats specially: every cursor position
             for s in c08_worker.SNIPPETS:
                 # (texts with hundreds of nested branches take seconds per request: a handful of cursors only)
-                texts.append({'id': tid, 'source': s, 'filename': '/nonexistent-verif-root/pkg/snip.py', 'cursors': -1 if len(s) < 3000 else 5, 'seed': 0})
+                # (and the end of the last line, where the long chains of definitions are queried)
+                ls = s.split('\n')
+                last = max([i for i, l in enumerate(ls) if l] or [0])
+                ends = [[last + 1, len(ls[last])], [last + 1, max(0, len(ls[last]) - 1)], [max(1, last // 2), len(ls[max(1, last // 2) - 1])]]
+                texts.append({'id': tid, 'source': s, 'filename': '/nonexistent-verif-root/pkg/snip.py', 'cursors': -1 if len(s) < 3000 else ends, 'seed': 0})
                 tid += 1
                 for ms in rng.sample(mutseqs[1:8], 3):
                     texts.append({'id': tid, 'source': s, 'filename': '/nonexistent-verif-root/pkg/snip.py', 'cursors': 3, 'seed': rng.randrange(1 << 30), 'muts': ms})
